@@ -4,7 +4,7 @@
     [rsum f n] = f 0 + ... + f (n-1); [dlt] = Kronecker delta; [ment M i j] = entry (i,j) of a list-of-rows matrix.
     All statements are over the reals, for every dimension. *)
 From Coq Require Import Reals List.
-From LP Require Import Num NumR C15_Model C15_Proofs C15_Proofs_QR C15_Proofs_Scale C15_Proofs_Iter C15_Proofs_Session.
+From LP Require Import Num NumR C15_Model C15_Proofs C15_Proofs_QR C15_Proofs_Scale C15_Proofs_Iter C15_Proofs_Session C15_Proofs_Inv C15_Proofs_Diag.
 Import ListNotations.
 Local Open Scope R_scope.
 
@@ -298,3 +298,102 @@ Theorem C15_relabelling_example :
   mvec ROps (sym_swap ROps m 0 1) [2; 1] <> map (Rmult 3) [2; 1].
 Proof. exact relabel_example. Qed.
 Print Assumptions C15_relabelling_example.
+
+(** ** Matrix::Inverse as called by Find_Eigenvector_Rayleigh (Gauss-Jordan elimination with partial pivoting on (A | 1), every n):
+    whatever the model returns for an n x n matrix A is an n x n matrix B with B A = 1 that maps no non-zero vector to zero
+    (induction over the elimination steps; the determinant guard and the zero-pivot exit only decide WHETHER it returns). *)
+Theorem C15_inverse_is_left_inverse n (m minv : list (list R)) : wf n m -> inverse ROps m = Ok minv ->
+  wf n minv /\
+  (forall i j, (i < n)%nat -> (j < n)%nat -> rsum (fun k => ment ROps minv i k * ment ROps m k j) n = dlt i j) /\
+  nonsing n (ment ROps minv).
+Proof. exact (inverse_correct n m minv). Qed.
+Print Assumptions C15_inverse_is_left_inverse.
+
+(** for a symmetric A the returned inverse is symmetric and a right inverse as well *)
+Theorem C15_inverse_of_symmetric n (m minv : list (list R)) : wf n m -> symm n (ment ROps m) -> inverse ROps m = Ok minv ->
+  symm n (ment ROps minv) /\
+  (forall i j, (i < n)%nat -> (j < n)%nat -> rsum (fun k => ment ROps m i k * ment ROps minv k j) n = dlt i j).
+Proof. exact (inverse_symmetric n m minv). Qed.
+Print Assumptions C15_inverse_of_symmetric.
+
+(** ** "Eigensystem/Eigenvectors ... return, for each eigenvalue, a unit vector v": every vector Find_Eigenvector_Rayleigh returns is a unit
+    vector of the dimension of M — no hypothesis on M or on the eigenvalue passed (replaces the hypothesis of C15_inverse_iteration_unit,
+    which quantifies over vectors of every length, by the proved facts about the inverse the code computes). *)
+Theorem C15_rayleigh_returns_unit_vector n (m : list (list R)) ev lam b : (0 < n)%nat -> wf n m ->
+  find_eigenvector_rayleigh ROps m ev = Ok (lam, b) -> length b = n /\ vdot ROps b b = 1.
+Proof. exact (rayleigh_unit_vector n m ev lam b). Qed.
+Print Assumptions C15_rayleigh_returns_unit_vector.
+
+(** the matrix the code inverts, [shifted m ev] = M - (ev + 1e-8 |M|) 1: when Inverse returns, no eigenvalue of M equals the shift and the
+    inverse scales every eigenvector of M by 1 / (lambda - shift) — the amplification the inverse iteration relies on *)
+Theorem C15_inverse_scales_eigenvectors n (m minv : list (list R)) ev (v : list R) lam : wf n m ->
+  inverse ROps (shifted m ev) = Ok minv -> length v = n -> (exists k, (k < n)%nat /\ nth k v 0 <> 0) ->
+  mvec ROps m v = map (Rmult lam) v ->
+  lam <> rayleigh_shift m ev /\ mvec ROps minv v = map (Rmult (/ (lam - rayleigh_shift m ev))) v.
+Proof. exact (inverse_maps_eigenvectors n m minv ev v lam). Qed.
+Print Assumptions C15_inverse_scales_eigenvectors.
+
+(** the two facts of C15_inverse_iteration_stays_at_eigen_start / _keeps_orthogonality for the whole call, with hypotheses on M only:
+    (1) if the start vector (1, 1/2, .., 1/n) / |..| is an eigenvector of M (eigenvalue lam), every call that returns returns (lam, start vector),
+        whichever eigenvalue was asked for (the mechanism of known finding K-C15-5, in exact arithmetic);
+    (2) for symmetric M the returned vector is orthogonal to every eigenvector of M that the start vector is orthogonal to. *)
+Theorem C15_rayleigh_start_vector_eigenvector n (m : list (list R)) ev lam l b : (0 < n)%nat -> wf n m ->
+  mvec ROps m (start_vector ROps n) = map (Rmult lam) (start_vector ROps n) ->
+  find_eigenvector_rayleigh ROps m ev = Ok (l, b) -> b = start_vector ROps n /\ l = lam.
+Proof. exact (rayleigh_start_eigenvector n m ev lam l b). Qed.
+Print Assumptions C15_rayleigh_start_vector_eigenvector.
+
+Theorem C15_rayleigh_keeps_orthogonality n (m : list (list R)) ev (v : list R) lam l b : (0 < n)%nat -> wf n m -> symm n (ment ROps m) ->
+  length v = n -> (exists k, (k < n)%nat /\ nth k v 0 <> 0) -> mvec ROps m v = map (Rmult lam) v ->
+  vdot ROps v (start_vector ROps n) = 0 ->
+  find_eigenvector_rayleigh ROps m ev = Ok (l, b) -> vdot ROps v b = 0.
+Proof. exact (rayleigh_keeps_orthogonality n m ev v lam l b). Qed.
+Print Assumptions C15_rayleigh_keeps_orthogonality.
+
+(** non-vacuity: P = [[16, -2], [-2, 19]] is symmetric and non-singular, (2, 1) (the direction of the start vector) is an eigenvector for 15,
+    (1, -2) for 20 and orthogonal to the start vector, Inverse returns on P - (20 + 25e-8) 1, and the call for the eigenvalue 20 returns —
+    over the reals — the pair (15, start vector).  The clause "for each eigenvalue a vector with M v = lambda v" is therefore false of the
+    model in exact arithmetic on this input class ([_refuted]); the library answers this P correctly through rounding noise and fails on
+    [[-1,-2],[-2,2]] (known finding K-C15-5, corpus/C15/known.case). *)
+Theorem C15_rayleigh_hypotheses_satisfiable :
+  wf 2 ex_P /\ symm 2 (ment ROps ex_P) /\
+  mvec ROps ex_P (start_vector ROps 2) = map (Rmult 15) (start_vector ROps 2) /\
+  (let v := [1; -2] in
+   length v = 2%nat /\ (exists k, (k < 2)%nat /\ nth k v 0 <> 0) /\ mvec ROps ex_P v = map (Rmult 20) v /\ vdot ROps v (start_vector ROps 2) = 0) /\
+  (exists minv, inverse ROps (shifted ex_P 20) = Ok minv) /\
+  (exists l b, find_eigenvector_rayleigh ROps ex_P 20 = Ok (l, b)).
+Proof. exact (conj ex_P_wf (conj ex_P_symm (conj ex_P_start_eigen (conj ex_P_other_eigen (conj ex_P_inverse ex_P_returns))))). Qed.
+Print Assumptions C15_rayleigh_hypotheses_satisfiable.
+
+Theorem C15_rayleigh_each_eigenvalue_refuted :
+  exists (m : list (list R)) (ev : R) (v : list R),
+    wf 2 m /\ symm 2 (ment ROps m) /\ mvec ROps m v = map (Rmult ev) v /\ v = [1; -2] /\
+    exists l b, find_eigenvector_rayleigh ROps m ev = Ok (l, b) /\ l <> ev /\ vdot ROps v b = 0.
+Proof. exact rayleigh_each_eigenvalue_refuted. Qed.
+Print Assumptions C15_rayleigh_each_eigenvalue_refuted.
+
+(** ** "Eigenvalues returns the spectrum" with convergence, on the diagonal matrices of the quantifier ("including diagonal ... matrices"):
+    for every n >= 1 and every diagonal M with non-zero diagonal entries the model of Eigenvalues returns (it does not exit after 200 sweeps)
+    and returns exactly the diagonal of M, in its order — each sweep's Q is a diagonal matrix of signs, R Q = M, and the convergence test is
+    passed at the first sweep that evaluates it.  [isdiag n a]: a i j = 0 for i <> j;  [diagm d]: the diagonal matrix of the list d. *)
+Theorem C15_eigenvalues_of_diagonal n (M : list (list R)) : (0 < n)%nat -> wf n M -> isdiag n (ment ROps M) ->
+  (forall i, (i < n)%nat -> ment ROps M i i <> 0) -> eigenvalues ROps M = Ok (diagonal ROps M).
+Proof. exact (eigenvalues_diagonal n M). Qed.
+Print Assumptions C15_eigenvalues_of_diagonal.
+
+Theorem C15_eigenvalues_of_diagonal_list (d : list R) : (0 < length d)%nat -> (forall i, (i < length d)%nat -> nth i d 0 <> 0) ->
+  eigenvalues ROps (diagm d) = Ok d.
+Proof. exact (eigenvalues_diagm d). Qed.
+Print Assumptions C15_eigenvalues_of_diagonal_list.
+
+(** one sweep leaves such a matrix as it is (the list of rows, not only its entries) *)
+Theorem C15_qr_sweep_fixes_diagonal n (M : list (list R)) : (0 < n)%nat -> wf n M -> isdiag n (ment ROps M) ->
+  (forall i, (i < n)%nat -> ment ROps M i i <> 0) ->
+  let qr := qr_loop ROps n 0 n (identity ROps n) M M in mmul ROps (snd qr) (fst qr) = M.
+Proof. exact (eig_sweep_diag n M). Qed.
+Print Assumptions C15_qr_sweep_fixes_diagonal.
+
+(** non-vacuity: diag(3, -2, 1/2) *)
+Theorem C15_eigenvalues_of_diagonal_example : eigenvalues ROps (diagm [3; -2; 1/2]) = Ok [3; -2; 1/2].
+Proof. exact eigenvalues_diagm_example. Qed.
+Print Assumptions C15_eigenvalues_of_diagonal_example.
